@@ -150,6 +150,8 @@ def build(sources, overrides=None, use_filenames=False, pngs=None, normalised=No
             if use_filenames and cps:
                 m = by_name[fname]
                 cps, gname = m.codepoints, m.glyph_name
+            if cps and s.get("glyph_name"):
+                gname = s["glyph_name"]  # a custom glyph map may name glyphs freely (single-codepoint sources only: F18)
             svg = None
             pico_text = None
             bitmap = None
